@@ -446,10 +446,19 @@ func runC15Message(c *fw.Ctx) {
 	for _, id := range s.Order {
 		msgs = append(msgs, s.Nodes[id].Sent...)
 	}
+	// the library also produces round-0 wire messages: abort notices. One party is stopped to obtain one.
+	if h2, err := sc.Mk()[sc.Parts[0]](); err == nil && h2 != nil {
+		tmp := &sim.Node{ID: sc.Parts[0], H: h2, Rng: sim.NewDRBG(c.Label("stop")), Honest: true}
+		for _, am := range s.Net.Call(tmp, func() { h2.Stop() }) {
+			if am.RoundNumber == 0 {
+				msgs = append(msgs, am, am) // weight: as likely as a few ordinary messages
+			}
+		}
+	}
 	if len(msgs) == 0 {
 		return
 	}
-	m := msgs[c.S.Draw(len(msgs), "message")]
+	m := msgs[len(msgs)-1-c.S.Draw(len(msgs), "message")]
 	b, err := m.MarshalBinary()
 	if err != nil {
 		c.Violate("persist-failed/protocol.Message", "MarshalBinary: %v", err)
